@@ -267,9 +267,61 @@ func (m *BVM) checkDispatcher() {
 			call = c
 		}
 	}
-	if mbn == nil || call == nil {
+	// the method lookup (and the filters on it) may live in a helper that returns (reflect.Value, error):
+	// then the filters are judged inside the helper against its success returns, and the reflective
+	// Call of InvokeBVM must lie behind the no-error edge of the helper call
+	scanFn := inv
+	var sinks []ssa.Instruction
+	if mbn == nil && call != nil {
+		for _, c := range Calls(inv) {
+			hc, ok := c.(*ssa.Call)
+			g := StaticCallee(c)
+			if !ok || g == nil || len(g.Blocks) == 0 || !m.P.InModule(g) {
+				continue
+			}
+			var hmbn ssa.Instruction
+			for _, gc := range Calls(g) {
+				if CalleeName(gc) == "(reflect.Value).MethodByName" {
+					hmbn = gc
+				}
+			}
+			if hmbn == nil {
+				continue
+			}
+			res := g.Signature.Results()
+			if res.Len() != 2 || res.At(1).Type().String() != "error" {
+				continue
+			}
+			// Call only behind the helper's no-error edge
+			se := SuccessEdges(inv, []GuardSite{{Call: hc, Conv: ConvErrNil, Idx: 1}})
+			if len(se) == 0 {
+				continue
+			}
+			rs := Reach([]Point{EntryOf(inv)}, nil, CutOf(se))
+			if rs.Has(call) {
+				continue
+			}
+			mbn, scanFn = hmbn, g
+			for _, ret := range Returns(g) {
+				if MayBeSuccess(g, ret, 1, ConvErrNil) {
+					sinks = append(sinks, ret)
+				}
+			}
+		}
+	} else if call != nil {
+		sinks = []ssa.Instruction{call}
+	}
+	if mbn == nil || call == nil || len(sinks) == 0 {
 		m.Problems = append(m.Problems, "InvokeBVM no longer dispatches through reflect MethodByName + Call: the dispatch model must be revisited")
 		return
+	}
+	reachesSink := func(rs *ReachSet) bool {
+		for _, s := range sinks {
+			if rs.Has(s) {
+				return true
+			}
+		}
+		return false
 	}
 	// Filters between MethodByName and Call: an If one of whose branches cannot
 	// reach Call, and whose condition is computed from (a) a lookup of the
@@ -295,26 +347,34 @@ func (m *BVM) checkDispatcher() {
 			return false
 		}
 	}
-	for _, b := range inv.Blocks {
+	isSink := func(in ssa.Instruction) bool {
+		for _, s := range sinks {
+			if s == in {
+				return true
+			}
+		}
+		return false
+	}
+	for _, b := range scanFn.Blocks {
 		ifi := IfOf(b)
 		if ifi == nil {
 			continue
 		}
-		// rejecting branch: some successor cannot reach Call
+		// rejecting branch: some successor cannot reach the dispatch (the Call, or the helper's success return)
 		rejects := false
 		for si := range b.Succs {
 			rs := Reach([]Point{{b.Succs[si], 0}}, nil, nil)
-			if !rs.Has(call) {
+			if !reachesSink(rs) {
 				rejects = true
 			}
 		}
-		before := Reach([]Point{EntryOf(inv)}, func(in ssa.Instruction) bool { return in == call }, nil)
+		before := Reach([]Point{EntryOf(scanFn)}, isSink, nil)
 		if !rejects || !before.Has(ifi) {
 			continue
 		}
-		// must dominate Call
-		dom := Reach([]Point{EntryOf(inv)}, func(in ssa.Instruction) bool { return in == ssa.Instruction(ifi) }, nil)
-		if dom.Has(call) {
+		// must dominate the dispatch
+		dom := Reach([]Point{EntryOf(scanFn)}, func(in ssa.Instruction) bool { return in == ssa.Instruction(ifi) }, nil)
+		if reachesSink(dom) {
 			continue
 		}
 		// markers may sit in the condition itself or in the body of a module
